@@ -89,12 +89,12 @@ def match(entry, line, mdl, t_call):
     if k == "idresp":
         return (n, c, t, a, s, p) == (entry[1], entry[2], 3, 0, 4, str(entry[3]))
     if k in ("fwcfg", "fwcfg?"):
-        if (n, c, t, a, s) != (entry[1], 255, 4, 0, 1):
+        if (n, c, t, s) != (entry[1], 255, 4, 1):      # the ack flag of firmware responses is not prescribed
             return False
         w = M.words_le(p, 4)
         return w is not None and (w[0], w[1]) == (entry[2], entry[3])
     if k in ("fwblk", "fwblk?"):
-        if (n, c, t, a, s) != (entry[1], 255, 4, 0, 3):
+        if (n, c, t, s) != (entry[1], 255, 4, 3):
             return False
         head = M.words_le(p[:12], 3)
         if head is None or tuple(head) != (entry[2], entry[3], entry[4]):
@@ -281,6 +281,11 @@ class LockStep:
                 f = parse_canon(l)
                 if f is None:
                     out.v("C05", f"not-canonical:{kind}", f"step {st}: emitted {l!r} is not one canonical line", st)
+                    # several commands glued into one write: C07 still judges every command in it
+                    for part in l.splitlines(keepends=True):
+                        g = parse_canon(part)
+                        if g and g[2] != 4 and g[0] in pe["sleeping"] and not (burst is not None and burst["node"] == g[0]):
+                            out.v("C07", f"sent-to-sleeping:{kind}", f"step {st} ({kind}): {part!r} (inside a multi-line write) sent although node {g[0]} is asleep", st)
                     continue
                 if spec.accepts(version, *f) is False:
                     out.v("C05", f"emitted-invalid:{kind}:t={f[2]}:s={f[4]}", f"step {st}: emitted {l!r} is not valid for {version}", st)
